@@ -73,9 +73,9 @@ def observe_obj(kind, obj, tail=SENTINEL, touch=False):
     return r
 
 
-def real_side(kind, v, wide=False, vpstyle=0, tail=SENTINEL, prov=None):
+def real_side(kind, v, wide=False, vpstyle=0, tail=SENTINEL, prov=None, scalars=None):
     try:
-        obj = A.build(kind, v, wide=wide, vpstyle=vpstyle, prov=prov)
+        obj = A.build(kind, v, wide=wide, vpstyle=vpstyle, prov=prov, scalars=scalars)
     except Exception as e:
         return dict(stage="build", exc=f"{type(e).__name__}: {e}")
     return observe_obj(kind, obj, tail)
